@@ -228,6 +228,7 @@ const (
 	PaceFast               // spacing ≈ target/4 or less → difficulty rises
 	PaceSlow               // spacing ≈ 4×target → difficulty falls / min-diff rule kicks in
 	PaceMixed              // random per block, occasionally non-monotonic (but above MTP)
+	PaceBack               // every block goes back in time as far as the median-time rule allows
 )
 
 func (g *Gen) expectedHashes(bits uint32) float64 {
@@ -254,6 +255,13 @@ func (g *Gen) nextTime(chain []wire.BlockHeader, pace Pace) time.Time {
 		}
 	case PaceSlow:
 		d = sp*4 + 1
+	case PaceBack:
+		back := parent.Timestamp.Unix() - mtp.Unix()
+		if back > 1 {
+			d = -(back - 1)
+		} else {
+			d = 1
+		}
 	case PaceMixed:
 		switch g.Rng.Intn(6) {
 		case 0:
@@ -395,6 +403,21 @@ func (g *Gen) Invalid(parent *Node, rule string) *Node {
 		return nil
 	}
 	return g.newNode(parent, h, rule)
+}
+
+// InvalidAtMTP appends to parent one header whose timestamp EQUALS the
+// median-time-past of its predecessors (the rule demands strictly after it)
+// and which is otherwise valid; nil if the validator labels it differently.
+func (g *Gen) InvalidAtMTP(parent *Node) *Node {
+	chain := parent.Chain()
+	h := g.template(parent, chain, g.nextTime(chain, PaceNormal))
+	h.Timestamp = ref.MedianTimePast(chain)
+	h.Bits = ref.RequiredBits(g.P, chain, h.Timestamp)
+	g.mine(&h)
+	if got := ref.CheckNext(g.P, chain, &h, g.Now); got != ref.RuleMTP {
+		return nil
+	}
+	return g.newNode(parent, h, ref.RuleMTP)
 }
 
 // AllRules lists the single-rule breaks Invalid understands.
